@@ -111,6 +111,15 @@ def classify(prop, t, line):
     label = "%s_at_%s" % (prop.lower(), ev)
     if prop == "C08" and ev == "fixpoint":
         return "c08_no_fixed_point" if not bad.get("stable") else "c08_fixed_point_state"
+    if prop == "C08" and ev == "assign_begin":
+        # over-quota request: right after a describe, into an interface whose map of that family is empty in the record?
+        rec, described = 0, False
+        for r in t[:line - 1]:
+            if r["ev"] == "reconcile_begin": described = False
+            elif r["ev"] == "describe": described = True
+            elif r["ev"] in ("cr", "reset"):
+                rec = sum(1 for x in r["ips"] if x["e"] == bad["e"] and (x["a"] < 100) == (bad["fam"] == 4))
+        return "c08_overquota_after_sync_into_empty_map" if described and rec == 0 else "c08_overquota_request"
     if prop != "C03" or ev not in ("cr", "unassign_begin", "detach", "delete_begin"):
         return label
     # replay the environment up to the failing line to say which part of the reclaim rule was broken
